@@ -99,6 +99,30 @@ theorem ptype_spec (v : List ℚ) (hv : NonConstant v) :
 example : NonConstant [1, 1, 2, 1] ∧ peaksMax [1, 1, 2, 1] = [2] ∧ peaksMin [1, 1, 2, 1] = [0, 3] := by
   decide +kernel
 
+/-- finding F11-1 (why the fix is needed): under the unchanged rule `values[1] - values[0]` the selection is wrong on a
+flat start — index 2 is the only local maximum of `[1, 1, 2, 1]`, yet `'max'` returns `[0, 3]` and `'min'` returns `[2]`. -/
+example : peaksMaxUnfixed [1, 1, 2, 1] = [0, 3] ∧ peaksMinUnfixed [1, 1, 2, 1] = [2] ∧
+    ¬ (∀ i, i ∈ peaksMaxUnfixed [1, 1, 2, 1] ↔
+        ∃ k, k < (peaks [1, 1, 2, 1]).length ∧ (peaks [1, 1, 2, 1]).getD k 0 = i ∧ LocalMaxAt [1, 1, 2, 1] k) := by
+  refine ⟨by decide +kernel, by decide +kernel, ?_⟩
+  intro h
+  have h0 : (0 : ℕ) ∈ peaksMaxUnfixed [1, 1, 2, 1] := by decide +kernel
+  obtain ⟨k, hk, hk0, hmax⟩ := (h 0).mp h0
+  have hP : peaks [1, 1, 2, 1] = [0, 2, 3] := by decide +kernel
+  rw [hP] at hk hk0
+  have : k = 0 := by
+    simp only [List.length_cons, List.length_nil] at hk
+    match k, hk, hk0 with
+    | 0, _, _ => rfl
+    | 1, _, h => simp at h
+    | 2, _, h => simp at h
+  subst this
+  unfold LocalMaxAt at hmax
+  rw [hP] at hmax
+  rcases hmax with ⟨_, h2⟩ | ⟨h1, _⟩
+  · revert h2; decide +kernel
+  · omega
+
 /-- C11.d, complement: every reported index is a local maximum or a local minimum and never both, so
 `peaksMax` and `peaksMin` partition `peaks`. -/
 theorem ptype_partition (v : List ℚ) (hv : NonConstant v) (k : ℕ) (hk : k < (peaks v).length) :
@@ -120,5 +144,51 @@ theorem ptype_extremal (v : List ℚ) (hv : NonConstant v) (k : ℕ) (hk : k < (
 example : NonConstant [0, 1, 3, 3, 2, 2, 4] ∧ LocalMaxAt [0, 1, 3, 3, 2, 2, 4] 1 := by
   refine ⟨by decide +kernel, Or.inl ?_⟩
   decide +kernel
+
+/-- **C11.e** `get_n_cyc_array(values, opt='all', start)` for a non-constant series (`so = true` ↔ `start='origin'`):
+the result has the series' length; at the `k`-th reported peak its value is `knot so k`, i.e. `0` for `k = 0` and
+`k/2 − 1/4` (`start='origin'`) or `k/2` (`start='peak'`) for `k ≥ 1` — so it rises by exactly `0.5` between consecutive
+reported peaks and by `0.25` up to the first one when counting from the origin; between consecutive reported peaks it
+is the linear interpolant; it is non-decreasing; and it is constant from the last reported peak on. -/
+theorem ncyc_spec (v : List ℚ) (hv : NonConstant v) (so : Bool) :
+    (nCycAll v so).length = v.length ∧
+    (∀ k, k < (peaks v).length →
+      (nCycAll v so).getD ((peaks v).getD k 0) 0 =
+        if k = 0 then 0 else (k : ℚ) / 2 - (if so then 1/4 else 0)) ∧
+    (∀ k, k + 1 < (peaks v).length → ∀ x, (peaks v).getD k 0 ≤ x → x ≤ (peaks v).getD (k+1) 0 →
+      (nCycAll v so).getD x 0 =
+        knot so k + (knot so (k+1) - knot so k) /
+          ((((peaks v).getD (k+1) 0 : ℕ) : ℚ) - (((peaks v).getD k 0 : ℕ) : ℚ)) * ((x : ℚ) - (((peaks v).getD k 0 : ℕ) : ℚ))) ∧
+    (∀ x y, x ≤ y → y < v.length → (nCycAll v so).getD x 0 ≤ (nCycAll v so).getD y 0) ∧
+    (∀ x, (peaks v).getD ((peaks v).length - 1) 0 ≤ x → x < v.length →
+      (nCycAll v so).getD x 0 = (nCycAll v so).getD ((peaks v).getD ((peaks v).length - 1) 0) 0) := by
+  have hne := nonConstant_ne_nil v hv
+  have hl := peaks_length_ge v
+  refine ⟨nCycAll_length v so, fun k hk => nCyc_at_peak v hv so k hk,
+    fun k hk x h1 h2 => nCyc_segment v hv so k hk x h1 h2, fun x y hxy hy => nCyc_mono v hv so x y hxy hy, ?_⟩
+  intro x h1 hx
+  rw [nCyc_tail v hv so x h1 hx]
+  exact (nCyc_tail v hv so _ le_rfl (pd_lt v hne _ (by omega))).symm
+
+example : NonConstant [0, 2, 2, 1, 3] ∧ nCycAll [0, 2, 2, 1, 3] true = [0, 1/4, 1/2, 3/4, 5/4] := by
+  decide +kernel
+
+/-- C11.e, corollary in the words of the property: the counter rises by exactly `1/2` from each reported peak to the
+next, except that the first rise is `1/4` when counting from the origin. -/
+theorem ncyc_increments (v : List ℚ) (hv : NonConstant v) (so : Bool) (k : ℕ) (hk : k + 1 < (peaks v).length) :
+    (nCycAll v so).getD ((peaks v).getD (k+1) 0) 0 - (nCycAll v so).getD ((peaks v).getD k 0) 0 =
+      if k = 0 ∧ so = true then 1/4 else 1/2 := by
+  have h1 := nCyc_at_peak v hv so (k+1) hk
+  have h2 := nCyc_at_peak v hv so k (by omega)
+  unfold pd at h1 h2
+  rw [h1, h2]
+  unfold knot
+  cases k with
+  | zero => cases so <;> norm_num
+  | succ k =>
+    simp only [Nat.add_eq_zero_iff, one_ne_zero, and_false, if_false, false_and]
+    push_cast; ring
+
+example : NonConstant [0, 2, 2, 1, 3] ∧ 0 + 1 < (peaks [0, 2, 2, 1, 3]).length := by decide +kernel
 
 end EqsigVerif.Props.C11
